@@ -723,4 +723,38 @@ theorem evalRules_inRange {env : Env} (he : env.InRange) : ∀ (rules : List Exp
     · subst hr; exact h1.1 v hv
     · exact evalRules_inRange he es (i + 1) _ (fun e' he' => hl e' (by simp [he'])) h1.2 r hr v hv
 
+/-! ### the bitwise operators, bit by bit -/
+
+namespace I128
+
+theorem toU_ofU {u : Nat} (h : u < 2 ^ 128) : toU (ofU u) = u := by
+  unfold toU ofU; split <;> omega
+
+/-- bit `i` of the two's-complement pattern of `n` -/
+def bit (n : Int) (i : Nat) : Bool := (toU n).testBit i
+
+/-- `&`, `|`, `^` on Ints act bit by bit on the 128-bit two's-complement patterns -/
+theorem land_bit (a b : Int) (i : Nat) : bit (land a b) i = (bit a i && bit b i) := by
+  unfold bit land
+  show (toU (ofU (toU a &&& toU b))).testBit i = _
+  rw [toU_ofU (Nat.and_lt_two_pow _ (toU_lt b))]
+  exact Nat.testBit_and _ _ _
+theorem lor_bit (a b : Int) (i : Nat) : bit (lor a b) i = (bit a i || bit b i) := by
+  unfold bit lor
+  show (toU (ofU (toU a ||| toU b))).testBit i = _
+  rw [toU_ofU (Nat.or_lt_two_pow (toU_lt a) (toU_lt b))]
+  exact Nat.testBit_or _ _ _
+theorem xor_bit (a b : Int) (i : Nat) : bit (xor a b) i = (bit a i != bit b i) := by
+  unfold bit xor
+  show (toU (ofU (toU a ^^^ toU b))).testBit i = _
+  rw [toU_ofU (Nat.xor_lt_two_pow (toU_lt a) (toU_lt b))]
+  exact Nat.testBit_xor _ _ _
+
+/-- the pattern determines the number: an i128 is its 128 bits -/
+theorem ofU_toU {n : Int} (h : inRange n = true) : ofU (toU n) = n := by
+  rw [inRange_iff] at h
+  unfold toU ofU; split <;> omega
+
+end I128
+
 end Reval
